@@ -33,7 +33,16 @@ CLAUSES = ('same_descriptors', 'setter_accepts', 'ctor_accepts', 'empty_fmt_noop
 REACH = ['width-suffix', 'limits-section-present', 'limits-section-absent', 'lines-skipped',
          'hidden-field', 'repeated-field', 'modifier', 'break-by', 'fixed-width', 'ranged-width',
          'life:fresh', 'life:str', 'life:ch_text', 'life:ch_text_partial', 'life:set', 'life:remove',
-         'life:printed-then-set', 'life:printed-then-remove']
+         'life:printed-then-set', 'life:printed-then-remove',
+         'lines>default-limits', 'lines>default-limits:all-shown',
+         'lines>default-limits:limits-section-dropped', 'lines>default-limits:never-limited']
+
+# The package has default record limits (30 first, 20 last records: more than 30 + 20 + 1 table lines are
+# cut) which apply only where the documentation says so.  The harness uses the numbers for ONE purpose: to
+# size record sets so that a default sneaking into the round trip would hide records (reach events
+# 'lines>default-limits*'); the oracle never uses them.
+DEFAULT_LIMITS = (30, 20)
+DEFAULT_LINES = DEFAULT_LIMITS[0] + DEFAULT_LIMITS[1] + 1
 
 
 class Res:
@@ -154,6 +163,15 @@ def check_case(case):
     _body, lim_apply = T.apply_limits(tl, limits)
     if lim_apply:
         res.hits.add('lines-skipped')
+    # more table lines (records + break-by lines) than the package's default limits would show, while the
+    # configuration of THIS table (limits off, larger limits, or never given) shows them all
+    beyond_default = len(tl) > DEFAULT_LINES and not lim_apply
+    if len(tl) > DEFAULT_LINES:
+        res.hits.add('lines>default-limits')
+    if beyond_default:
+        res.hits.add('lines>default-limits:all-shown')
+        if limits is None:
+            res.hits.add('lines>default-limits:never-limited')
     if any(c.mod is not None for c in cols):
         res.hits.add('modifier')
     if any(c.brk for c in cols):
@@ -168,7 +186,12 @@ def check_case(case):
         res.hits.add('fixed-width')
     res.nontrivial = bool(rendered and ranged)
     cls = 'ranged-column-after-print' if (rendered and ranged) else 'other'
-    changed = 'stale-widths-after-remove_columns' if 'stale-widths-possible' in ev else 'rendering-changed'
+    if 'stale-widths-possible' in ev:
+        changed = 'stale-widths-after-remove_columns'
+    elif beyond_default:
+        changed = 'rendering-changed:all-shown-lines>default-limits'
+    else:
+        changed = 'rendering-changed'
 
     try:
         with T.guarded():
@@ -203,6 +226,10 @@ def check_case(case):
         pcols = None
     if pcols is not None:
         res.hits.add('limits-section-present' if plimits is not None else 'limits-section-absent')
+        if beyond_default and limits is not None and plimits is None:
+            # the limits were configured (off, or large enough to show everything) and the reported format
+            # does not mention them: whoever reads s back must not fall back to narrower limits
+            res.hits.add('lines>default-limits:limits-section-dropped')
         diff = _cmp_cols(pcols, cols)
         if diff:
             res.fail('same_descriptors', 'serialized-columns', f"str(table.fmt) = {_short(s)}: {diff}")
@@ -424,6 +451,48 @@ def family_stale():
                     yield {'family': 'stale', 'table': desc, 'history': hist}
 
 
+def many_records(n):
+    """n records [id, name, st]: ids of 1-3 digits, one long name in the middle (hidden under small limits),
+    st = 999 for every 9th record (a break-by column on st adds two service lines around each of them)"""
+    out = []
+    for i in range(1, n + 1):
+        name = 'a rather long name in the middle' if i == n // 2 else 'user %03d' % i
+        out.append([i, name, 999 if i % 9 == 0 else 10])
+    return out
+
+
+MANY_COLS = [
+    [{'field': 'id', 'w': None}, NCOL],                                              # ranged (default bounds)
+    [{'field': 'id', 'w': [5]}, NCOL],                                               # fixed widths only
+    [{'field': 'st', 'mod': 'name', 'w': [2, 8], 'brk': True}, {'field': 'name', 'w': [3, 20]}],
+    [{'field': 'id', 'w': [0, 3], 'brk': True}, NCOL],                               # a break after every record
+]
+# limits around the default ones: off, equal, just above, larger than the table, small, by the last lines only
+LIMS_MANY = [None, '*', [30, 20], [30, 21], [40, 30], [100, 100], [5, 5], [0, 0], [0, 60]]
+NREC_MANY = [44, 52, 60]             # 44 records + break-by lines on st = 52 table lines
+ARG_LIMS_MANY_QUICK = ['*', [40, 30], [5, 5]]      # quick tier: the limits given by argument
+NREC_MANY_THOROUGH = [44, 51, 52, 53, 60, 71, 130]
+
+
+def family_many(full):
+    """1c: tables with more table lines than the default record limits would show: 4 column sets x record
+    counts around 30+20+1 x limits (never given / off / equal to / above the default / small; by fmt and by
+    argument - quick tier: 3 of the limits by argument) x every life point"""
+    for cols in MANY_COLS:
+        for n in (NREC_MANY_THOROUGH if full else NREC_MANY):
+            recs = many_records(n)
+            for lim in LIMS_MANY:
+                for via in ('fmt', 'arg'):
+                    if lim is None and via == 'arg':
+                        continue
+                    if not full and via == 'arg' and lim not in ARG_LIMS_MANY_QUICK:
+                        continue
+                    for icols, ilim, hist in histories(cols, lim):
+                        desc = {'mode': 'fields', 'fields': FIELDS, 'records': recs, 'columns': icols,
+                                'limits': ilim, 'limits_via': via}
+                        yield {'family': 'many', 'table': desc, 'history': hist}
+
+
 NAMES_ANY = ['id', 'name', 'st', 'v', 'f0', 'grp', 'level', 'x', 'T_2', 'my col', 'Ünï', 'a.b', 'q?', '2nd']
 NAMES_IDENT = ['id', 'name', 'st', 'v', 'f0', 'grp', 'level', 'x', 'T_2']
 VALUES = [7, -3, 42, 12345, None, True, False, 1.5, 'a', 'abc', 'hello', '', 'x|y', '+-+', 'long text value here',
@@ -450,8 +519,10 @@ def rand_columns(rnd, fields, max_cols, allow_hidden=True):
     return columns
 
 
-def random_case(rnd, thorough):
-    nrec = rnd.randint(0, 8)
+def random_case(rnd, thorough, many=False):
+    """many: 45-140 records (more than the default record limits show) and limits around the default ones"""
+    nrec = rnd.randint(45, 140) if many else rnd.randint(0, 8)
+    more_lims = [[30, 21], [40, 30], [100, 100], '*', '*'] if many else []
     mode = 'fields' if nrec == 0 else rnd.choices(['fields', 'namedtuple', 'attr'], [70, 15, 15])[0]
     pool = NAMES_ANY if mode == 'fields' else NAMES_IDENT
     nf = rnd.randint(1, 4)
@@ -493,7 +564,7 @@ def random_case(rnd, thorough):
         columns = None
     desc = {'mode': mode, 'fields': fields, 'records': records, 'columns': columns}
     if rnd.random() < 0.6:
-        desc['limits'] = rnd.choice(LIMS[1:] + [[3, 1], [0, 2]])
+        desc['limits'] = rnd.choice(LIMS[1:] + [[3, 1], [0, 2]] + more_lims)
         desc['limits_via'] = rnd.choice(['fmt', 'arg'])
     else:
         desc['limits'] = None
@@ -524,7 +595,7 @@ def random_case(rnd, thorough):
             else:
                 spec['columns'] = None
             if rnd.random() < 0.5:
-                spec['limits'] = rnd.choice(LIMS[1:])
+                spec['limits'] = rnd.choice(LIMS[1:] + more_lims)
             history.append(['set', spec])
         else:
             vis = sorted({c.field for c in cur_cols})
@@ -543,9 +614,9 @@ def _work(args):
     if kind == 'list':
         cases = payload
     else:
-        seed, chunk, n, thorough = payload
-        rnd = random.Random(f"C13:{seed}:{chunk}")
-        cases = [random_case(rnd, thorough) for _ in range(n)]
+        seed, chunk, n, thorough, many = payload
+        rnd = random.Random(f"C13:{seed}:many:{chunk}" if many else f"C13:{seed}:{chunk}")
+        cases = [random_case(rnd, thorough, many) for _ in range(n)]
     out = []
     for c in cases:
         r = check_case(c)
@@ -566,8 +637,8 @@ def chunks(it, n):
 
 def sizes(tier):
     if tier == 'quick':
-        return {'pairs': False, 'random': 3000}
-    return {'pairs': True, 'random': 40000}
+        return {'pairs': False, 'random': 3000, 'random_many': 400}
+    return {'pairs': True, 'random': 40000, 'random_many': 4000}
 
 
 def run(b):
@@ -575,11 +646,15 @@ def run(b):
     thorough = b.tier != 'quick'
     jobs = [('list', ch) for ch in chunks(family_single(thorough), 200)]
     jobs += [('list', ch) for ch in chunks(family_stale(), 200)]
+    jobs += [('list', ch) for ch in chunks(family_many(thorough), 50)]
     if sz['pairs']:
         jobs += [('list', ch) for ch in chunks(family_pairs(), 200)]
     per = 200
     for k in range(sz['random'] // per):
-        jobs.append(('seeded', (b.seed, k, per, thorough)))
+        jobs.append(('seeded', (b.seed, k, per, thorough, False)))
+    per_many = 50
+    for k in range(sz['random_many'] // per_many):
+        jobs.append(('seeded', (b.seed, k, per_many, thorough, True)))
     ctx = multiprocessing.get_context('fork')
     with ctx.Pool(min(16, multiprocessing.cpu_count() or 1)) as pool:
         for out in pool.imap(_work, jobs, chunksize=1):
